@@ -9,6 +9,8 @@ generated trees, random and malformed documents).
 Exploration: documents written from generated trees (harness/gen_tree.py); the writer knows the line
 on which it put each block; compared with token.line_number at every depth, under the Html and the
 Markdown token sets (this is also what covers TableRow/TableCell/ListItem constructors).
+Failing-input search when a unit disagrees: a text on which the code builds the parse buffer the model builds, except
+for line numbers, is a failing input (the model's numbers are proved to be the true first lines).
 """
 import random
 
@@ -41,7 +43,38 @@ def gen(seed, nblocks=None):
     return gen_tree.generate(random.Random(seed), gen_tree.Opts(), nblocks)
 
 
+def _strip_numbers(buf):
+    """the parse buffer in block_units' canonical JSON with every line number removed"""
+    entries, loose = buf
+    out = []
+    for name, payload, _ln in entries:
+        if name == 'Quote':
+            payload = _strip_numbers(payload)
+        elif name == 'List':
+            payload = [[_strip_numbers(m[0]), m[1], m[2], m[3]] for m in payload]
+        elif name == 'Table':
+            payload = [payload[0]]
+        out.append([name, payload])
+    return [out, loose]
+
+
+def _model_oracle(w):
+    """A text on which model and code build the SAME parse buffer except for line numbers: the model's numbers are
+    the true ones (C13_line_numbers: every entry reports the origin of its first line), so the code's are wrong."""
+    lines = block_units.lines_of(w['text'])
+    res, types = block_units.real_block_phase(w.get('renderer') or 'HtmlRenderer', w.get('kwargs') or {}, lines)
+    m = common.driver_batch([{'op': 'block.parse', 'types': types, 'lines': lines, 'fuel': 1000000}])[0]
+    if not (isinstance(m, dict) and 'buffer' in m and 'buffer' in res):
+        return False, 'no buffer on one side'
+    if m['buffer'] == res['buffer'] or _strip_numbers(m['buffer']) != _strip_numbers(res['buffer']):
+        return False, 'ok'
+    return True, ('the parse buffer of %r has the structure the model computes but other line numbers: the code reports %s, the '
+                  'true first lines (model, C13_line_numbers) are %s' % (w['text'], res['buffer'], m['buffer']))
+
+
 def check_witness(w):
+    if 'text' in w:
+        return _model_oracle(w)
     bs, text, _, _ = gen(w['seed'], w.get('nblocks'))
     exp = gen_tree.expected_lines(bs)
     for rname in ('HtmlRenderer', 'MarkdownRenderer'):
@@ -81,6 +114,17 @@ def units(ctx):
 
 
 def explore(ctx, seeds):
+    # inputs on which a correspondence unit disagreed: is it the line numbers?
+    if ctx.lean is not None and ctx.lean.build_ok and not [b for b in ctx.lean.bad if b.startswith('audit')]:
+        for sd in seeds[:40]:
+            if isinstance(sd, dict) and 'text' in sd:
+                w = {'text': sd['text'], 'renderer': sd.get('renderer'), 'kwargs': sd.get('kwargs') or {}}
+                try:
+                    fails, detail = _model_oracle(w)
+                except Exception:
+                    continue
+                if fails:
+                    ctx.violation(detail, w)
     base = ctx.seed * 1000003 + 17
     n = ctx.budget(2500, 40000)
     cases = [{'seed': base + i, 'nblocks': None if i % 3 else 1 + i % 2} for i in range(n)]
